@@ -41,6 +41,7 @@ func (s *muxerServer) handle(w http.ResponseWriter, r *http.Request) {
 	s.mutex.RUnlock()
 
 	if ok {
+		verifYield("server.beforeHandler")
 		handler(w, r)
 	}
 }
